@@ -10,7 +10,7 @@ INT_TYPES = [("int", 256, False)] * 6 + [("int", 256, True)] * 3 + [("int", 128,
 ARITH = ["Add"] * 4 + ["Sub"] * 3 + ["Mul"] * 3 + ["Div"] * 2 + ["Mod"] * 2 + ["BAnd", "BOr", "BXor"]
 CMPS = ["Lt", "Le", "Gt", "Ge", "Eq", "Ne"]
 
-ALL_FEATURES = {"probes", "maps", "reasons", "convert", "ifexp", "minmax", "bitops", "internal", "loops", "arrays", "dynarrays", "structs",
+ALL_FEATURES = {"probes", "maps", "reasons", "bytes", "convert", "ifexp", "minmax", "bitops", "internal", "loops", "arrays", "dynarrays", "structs",
                 "transient", "sender", "value", "fordyn", "forin"}
 
 
@@ -65,6 +65,8 @@ class Gen:
         return min(max(v, lo), hi)
 
     def lit(self, t, nonzero=False):
+        if t[0] == "bytes":
+            return self.bytes_lit(t[1])
         if t[0] in ("sarr", "darr", "struct"):
             return self.composite_lit(t)
         v = self.lit_val(t)
@@ -238,10 +240,14 @@ class Gen:
                 opts += ["conv"] * 2
             if t == U256 and "dynarrays" in self.feat and any(c.ty[0] == "darr" for c in self.containers(cx, scope)):
                 opts += ["len"]
+            if t == U256 and self.bytes_leaves(cx, scope, 10 ** 6):
+                opts += ["blen"]
             if t == U256 and "value" in self.feat and cx.external and cx.payable:
                 opts += ["value"]
         elif t == BOOL:
             opts += ["cmp"] * 4 + ["and", "or", "not"]
+            if self.bytes_leaves(cx, scope, 10 ** 6):
+                opts += ["bcmp"]
             if "convert" in self.feat:
                 opts += ["conv"]
         elif t == ADDR:
@@ -295,6 +301,8 @@ class Gen:
         if k == "len":
             cs = [c for c in self.containers(cx, scope) if c.ty[0] == "darr"]
             return E("len", U256, a=r.choice(cs))
+        if k == "blen":
+            return E("len", U256, a=self.bytes_expr(cx, scope, 10 ** 6, 1, nonlit=True))
         if k == "value":
             return E("value", U256)
         if k == "sender":
@@ -313,6 +321,12 @@ class Gen:
             if r.random() < 0.3:
                 a, b = b, a
             return E("cmp", BOOL, op=op, a=a, b=b)
+        if k == "bcmp":
+            a = self.bytes_expr(cx, scope, 10 ** 6, 1, nonlit=True)
+            b = self.bytes_expr(cx, scope, 10 ** 6, 1)
+            if a is None:
+                return None
+            return E("cmp", BOOL, op=r.choice(["Eq", "Ne"]), a=a, b=b)
         if k in ("and", "or"):
             a = self.nonlit(cx, scope, BOOL, d - 1)
             b = self.nonlit(cx, scope, BOOL, d - 1)
@@ -337,7 +351,91 @@ class Gen:
             return self.sub_access(cx, scope, t, d)
         raise ValueError(k)
 
+    def bytes_lit(self, n):
+        r = self.r
+        n = min(n, 72)
+        ln = r.choice([0, 1, 1, 2, 3, 5, 31, 32, 33, n, n]) if n > 0 else 0
+        ln = min(ln, n)
+        return E("const", ("bytes", ln), v=bytes(r.randrange(256) for _ in range(ln)))
+
+    def bytes_leaves(self, cx, scope, n):
+        """readable Bytes places whose bound fits into n"""
+        out = []
+        for (name, vid, vt, _m) in scope:
+            if vt[0] == "bytes" and vt[1] <= n:
+                out.append(E("var", vt, name=name, id=vid))
+        for i, (name, vt) in enumerate(self.prog.sto):
+            if vt[0] == "bytes" and vt[1] <= n:
+                out.append(E("self", vt, name=name, id=i))
+        for i, (name, vt) in enumerate(self.prog.tra):
+            if vt[0] == "bytes" and vt[1] <= n:
+                out.append(E("tra", vt, name=name, id=i))
+        return out
+
+    def bytes_expr(self, cx, scope, n, d, nonlit=False):
+        """an expression of type Bytes[m] with m <= n (the node's ty is its own static bound)"""
+        r = self.r
+        leaves = self.bytes_leaves(cx, scope, n)
+        opts = (["leaf"] * 3 if leaves else []) + ([] if nonlit else ["lit"] * 2)
+        if d > 0 and n >= 2:
+            opts += ["concat"] * 2
+        anyleaves = self.bytes_leaves(cx, scope, 10 ** 6)
+        if d > 0 and anyleaves and n >= 1:
+            opts += ["slice"] * 2
+        fs = [i for i, f in enumerate(self.prog.ints) if (cx.external or i < cx.fidx) and f.ret is not None
+              and f.ret[0] == "bytes" and f.ret[1] <= n and not (cx.iter_locked & self.writes.get(i, set()))]
+        if fs and "internal" in self.feat:
+            opts += ["call"] * 2
+        if not opts:
+            return None if nonlit else self.bytes_lit(n)
+        k = r.choice(opts)
+        if k == "leaf":
+            return r.choice(leaves)
+        if k == "lit":
+            return self.bytes_lit(n)
+        if k == "call":
+            return self.call_expr(cx, scope, r.choice(fs), d)
+        if k == "concat":
+            n1 = r.randrange(1, n)
+            a = self.bytes_expr(cx, scope, n1, d - 1, nonlit=True)
+            if a is None:
+                a = self.bytes_lit(n1)
+                b = self.bytes_expr(cx, scope, n - a.ty[1], d - 1, nonlit=True)
+                if b is None:
+                    return self.bytes_lit(n)
+            else:
+                b = self.bytes_expr(cx, scope, n - a.ty[1], d - 1)
+            if r.random() < 0.4:
+                a, b = b, a
+            return E("concat", ("bytes", a.ty[1] + b.ty[1]), a=a, b=b)
+        # slice
+        x = r.choice(anyleaves)
+        m = x.ty[1]
+        if m < 1:
+            return self.bytes_lit(n)
+        if r.random() < 0.75 or m > n:
+            ln = r.randrange(1, min(n, m) + 1)
+            if r.random() < 0.6:
+                start = E("const", U256, v=r.randrange(0, m - ln + 1))
+            else:
+                start = self.expr(cx, scope, U256, 1)
+                if not start.is_lit() and r.random() < 0.7:
+                    start = E("bin", U256, op="Mod", a=start, b=E("const", U256, v=m - ln + 1))
+                elif start.is_lit():
+                    start = E("const", U256, v=r.randrange(0, m - ln + 1))
+            return E("slice", ("bytes", ln), a=x, start=start, ln=E("const", U256, v=ln))
+        # non-literal length: the result type is the source bound
+        ln = self.nonlit(cx, scope, U256, 1)
+        if ln is None:
+            return x
+        if r.random() < 0.7:
+            ln = E("bin", U256, op="Mod", a=ln, b=E("const", U256, v=m + 1))
+        return E("slice", ("bytes", m), a=x, start=E("const", U256, v=0) if r.random() < 0.6 else
+                 E("bin", U256, op="Mod", a=self.expr(cx, scope, U256, 1), b=E("const", U256, v=2)), ln=ln)
+
     def expr(self, cx, scope, t, d, nonzero_lit=False):
+        if t[0] == "bytes":
+            return self.bytes_expr(cx, scope, t[1], d)
         if t[0] in ("sarr", "darr", "struct"):
             return self.composite_expr(cx, scope, t, d)
         if d > 0 or self.r.random() < 0.7:
@@ -459,6 +557,8 @@ class Gen:
             x = r.random()
             comp = [t for t in self.comp_types if t[0] != "struct" or True]
             t = r.choice(comp) if (comp and x < 0.25) else self.prim_type()
+            if self.bytes_types and r.random() < 0.2:
+                t = r.choice(self.bytes_types)
             e = self.expr(cx, scope, t, ed)
             name, vid = self.new_local(cx, t)
             scope.append((name, vid, t, True))
@@ -787,10 +887,14 @@ class Gen:
                 ptys.append(r.choice(self.comp_types))
             elif self.comp_types and external and r.random() < 0.15:
                 ptys.append(r.choice(self.comp_types))
+            elif self.bytes_types and r.random() < 0.15:
+                ptys.append(r.choice(self.bytes_types))
             else:
                 ptys.append(self.prim_type())
         x = r.random()
-        if x < 0.2:
+        if self.bytes_types and x < 0.1:
+            ret = r.choice(self.bytes_types)
+        elif x < 0.2:
             ret = None
         elif x < 0.35 and self.comp_types:
             ret = r.choice(self.comp_types)
@@ -811,6 +915,63 @@ class Gen:
             body.append(S("return", e=self.expr(cx, scope, ret, 2)))
         name = f"f{idx}" if external else f"g{idx}"
         return Fun(name, params, ret, body, external, payable)
+
+    def bytes_probe_function(self, idx):
+        """slice / concat / equality of Bytes on the arguments, called at the boundaries (exact end, one past the end, empty)"""
+        r = self.r
+        n = r.choice([1, 5, 31, 32, 33, 40, 64, 65])
+        bt = ("bytes", n)
+        kind = r.choice(["slice", "slice", "slice_lit", "concat", "eq"])
+        a0 = E("var", bt, name="a0", id=0)
+        if kind == "slice":
+            f = Fun(f"p{idx}", [("a0", bt), ("a1", U256), ("a2", U256)], bt,
+                    [S("return", e=E("slice", bt, a=a0, start=E("var", U256, name="a1", id=1), ln=E("var", U256, name="a2", id=2)))], True)
+        elif kind == "slice_lit":
+            ln = r.randrange(1, n + 1)
+            f = Fun(f"p{idx}", [("a0", bt), ("a1", U256)], ("bytes", ln),
+                    [S("return", e=E("slice", ("bytes", ln), a=a0, start=E("var", U256, name="a1", id=1), ln=E("const", U256, v=ln)))], True)
+            f.lit_len = ln
+        elif kind == "concat":
+            m = r.choice([1, 2, 31, 32, 33])
+            f = Fun(f"p{idx}", [("a0", bt), ("a1", ("bytes", m))], ("bytes", n + m),
+                    [S("return", e=E("concat", ("bytes", n + m), a=a0, b=E("var", ("bytes", m), name="a1", id=1)))], True)
+        else:
+            f = Fun(f"p{idx}", [("a0", bt), ("a1", bt)], BOOL,
+                    [S("return", e=E("cmp", BOOL, op=r.choice(["Eq", "Ne"]), a=a0, b=E("var", bt, name="a1", id=1)))], True)
+        f.bprobe = (kind, n)
+        return f
+
+    def bytes_probe_calls(self, f):
+        r = self.r
+        kind, n = f.bprobe
+
+        def rb(k):
+            return bytes(r.randrange(256) for _ in range(k))
+        out = []
+        if kind == "slice":
+            for ln_a in sorted({0, 1, n, max(n - 1, 0), min(32, n), min(33, n)}):
+                a = rb(ln_a)
+                for (s0, l0) in [(0, ln_a), (ln_a, 0), (ln_a // 2, ln_a - ln_a // 2), (0, ln_a + 1), (1, ln_a), (ln_a + 1, 0), (2 ** 256 - 1, 2)]:
+                    if r.random() < 0.6:
+                        out.append([a, s0, l0])
+        elif kind == "slice_lit":
+            ln = f.lit_len
+            for ln_a in sorted({ln, min(ln + 1, n), n, max(ln - 1, 0)}):
+                a = rb(ln_a)
+                for s0 in [0, ln_a - ln, ln_a - ln + 1, 1]:
+                    if s0 >= 0 and r.random() < 0.8:
+                        out.append([a, s0])
+        elif kind == "concat":
+            m = f.params[1][1][1]
+            for la in sorted({0, 1, n, min(31, n), min(32, n)}):
+                for lb in sorted({0, m, 1}):
+                    if r.random() < 0.6:
+                        out.append([rb(la), rb(lb)])
+        else:
+            a = rb(n)
+            out += [[a, a], [a, a[:-1]], [a[:-1] + bytes([a[-1] ^ 1]), a], [b"", b""], [rb(min(n, 33)), rb(min(n, 33))]]
+        r.shuffle(out)
+        return out[:6]
 
     def probe_function(self, idx):
         """a tiny external function exercising ONE operator at ONE type on its arguments (systematic operator coverage;
@@ -943,14 +1104,21 @@ class Gen:
                 st = ("struct", "St1", (("n0", self.prim_type()), ("n1", r.choice(arrs))))
                 p.structs.append(st)
                 self.comp_types.append(st)
+        self.bytes_types = []
+        if "bytes" in self.feat and r.random() < 0.45:
+            self.bytes_types = sorted({("bytes", r.choice([1, 3, 8, 31, 32, 33, 40, 64, 70])) for _ in range(r.randrange(1, 3))})
         nev = r.randrange(1, 3)
         for i in range(nev):
             if i == 0:
                 p.events.append(("Ev0", [("x", U256)]))
             else:
                 p.events.append((f"Ev{i}", [(f"x{k}", self.prim_type()) for k in range(r.randrange(0, 3))]))
+        if self.bytes_types and r.random() < 0.6:
+            p.events.append((f"Ev{len(p.events)}", [("b", r.choice(self.bytes_types)), ("n", U256)]))
         for i in range(r.randrange(1, 5)):
             t = r.choice(self.comp_types) if (self.comp_types and r.random() < 0.4) else self.prim_type()
+            if self.bytes_types and r.random() < 0.25:
+                t = r.choice(self.bytes_types)
             p.sto.append((f"s{i}", t))
         if "maps" in self.feat and r.random() < 0.45:
             for _ in range(r.randrange(1, 3)):
@@ -977,6 +1145,8 @@ class Gen:
         if "probes" in self.feat:
             for _ in range(2):
                 p.exts.append(self.probe_function(len(p.exts)))
+            if "bytes" in self.feat and (self.bytes_types or r.random() < 0.3):
+                p.exts.append(self.bytes_probe_function(len(p.exts)))
         return p
 
     # ---------------------------------------------------------------- calls
@@ -1004,6 +1174,11 @@ class Gen:
         return v % W
 
     def arg_tree(self, t):
+        if t[0] == "bytes":
+            r = self.r
+            ln = r.choice([0, 1, 2, 5, 31, 32, 33, t[1], t[1], t[1] + (1 if r.random() < 0.15 else 0)])
+            ln = min(ln, t[1] + 1)
+            return bytes(r.randrange(256) for _ in range(ln))
         if t[0] in ("int", "bool", "addr"):
             w = self.arg_word(t)
             if t[0] == "bool":
@@ -1036,4 +1211,7 @@ class Gen:
             if getattr(f, "probe", None) is not None:
                 for pair in self.probe_args(f.probe):
                     out.insert(self.r.randrange(len(out) + 1), Call(i, pair))
+            if getattr(f, "bprobe", None) is not None:
+                for args in self.bytes_probe_calls(f):
+                    out.insert(self.r.randrange(len(out) + 1), Call(i, args))
         return out
